@@ -267,9 +267,14 @@ def strategy(tier):
                 meta['.'.join(c['path'] + [c['name'], v['name']])] = v
         ops = []
         for _ in range(draw(st.integers(1, 5))):
-            k = draw(st.integers(0, max(0, len(names) - 1)))
             if not names:
                 break
+            # choose the kind of name first (inputs three times as often as outputs), then a name of that kind
+            by_kind = {}
+            for j, (_, kd, _) in enumerate(names):
+                by_kind.setdefault(kd, []).append(j)
+            pool = [kd for kd in sorted(by_kind) for _ in range(3 if kd in ('conn_in', 'auto_in') else 1)]
+            k = draw(st.sampled_from(by_kind[draw(st.sampled_from(pool))]))
             api_name, kind, an = names[k]
             v = meta[an]
             shape = list(v['shape'])
